@@ -1051,7 +1051,12 @@ func validTables(repo string, args []string) (string, error) {
 	}
 	var sb strings.Builder
 	sb.WriteString("(* GENERATED by go2coq validtables from ruleguard/ir_loader.go, go_version.go, irconv/irconv.go, engine.go, quasigo/compile.go and gogrep/nodetag -- regenerated on every check. *)\n")
-	sb.WriteString("From Coq Require Import List String Bool.\nImport ListNotations.\nLocal Open Scope string_scope.\n\n")
+	sb.WriteString("From Coq Require Import List String Bool NArith.\nFrom RG.Load Require Import Validate.\nImport ListNotations.\nLocal Open Scope string_scope.\n\n")
+	opsSrc, err := loadOpsCoq(repo)
+	if err != nil {
+		return "", err
+	}
+	sb.WriteString(opsSrc)
 	fmt.Fprintf(&sb, "Definition gen_kind_names : list string :=\n  %s.\n", coqStringList(kinds))
 	fmt.Fprintf(&sb, "Definition gen_object_names : list string :=\n  %s.\n", coqStringList(objects))
 	fmt.Fprintf(&sb, "Definition gen_tag_names : list string :=\n  %s.\n", coqStringList(tagNames))
